@@ -159,6 +159,12 @@ pub fn check_c07_srv(case: &C07Srv) -> CaseResult {
             select_seed: case.select_seed,
             fail_write_at: case.fail_write_at,
             probe_shutdown: true,
+            // a third of the cases: the reply direction is blocked for a few ms at some point
+            write_stall: if case.select_seed % 3 == 0 {
+                Some(((case.select_seed as usize / 3) % 96, 1 + case.select_seed % 5))
+            } else {
+                None
+            },
         },
     );
     // progress: polls bounded by a linear function of the input
@@ -578,4 +584,142 @@ fn rtu_recovery(case: &C07Srv) -> Option<String> {
             unit
         ))
     })
+}
+
+// ---------------------------------------------------------------------------------------------
+// C07, client role: a peer that keeps talking cannot keep the task from honouring its handles.
+// While a request is outstanding the peer sends well-formed frames nobody asked for, spaced more
+// closely than the request's timeout, for much longer than that timeout; in the middle a handle
+// asks for shutdown (or disable). The transaction is bounded by its own timeout, so the command
+// must take effect no later than the request's deadline (or at once, if it comes after it).
+
+#[derive(Clone, Debug, PartialEq, Eq, Hash, Serialize, Deserialize)]
+pub struct C07Chatter {
+    pub decode: Decode,
+    pub timeout_ms: u32,
+    /// gaps between the peer's frames (each < timeout)
+    pub gaps_ms: Vec<u32>,
+    /// transaction-id offsets of the frames (never 0: none of them answers the request)
+    pub tx_offsets: Vec<u16>,
+    /// the command is issued after this many peer frames
+    pub command_after: usize,
+    pub disable_instead: bool,
+    pub select_seed: u64,
+}
+
+pub fn arb_c07_chatter() -> BoxedStrategy<C07Chatter> {
+    (arb_decode_any(), 5u32..200, any::<bool>(), any::<u64>())
+        .prop_flat_map(|(decode, timeout_ms, disable_instead, select_seed)| {
+            (vec((1u32..timeout_ms, 1u16..=65535), 4..40), any::<prop::sample::Index>()).prop_map(move |(frames, at)| C07Chatter {
+                decode,
+                timeout_ms,
+                gaps_ms: frames.iter().map(|f| f.0).collect(),
+                tx_offsets: frames.iter().map(|f| f.1).collect(),
+                command_after: at.index(frames.len() + 1),
+                disable_instead,
+                select_seed,
+            })
+        })
+        .boxed()
+}
+
+pub fn check_c07_chatter(case: &C07Chatter) -> CaseResult {
+    let mut ops = vec![COp::Submit {
+        id: 0,
+        style: Style::Future,
+        handle: 0,
+        unit: 1,
+        timeout_ms: case.timeout_ms,
+        req: ReqSpec::Read {
+            kind: Kind::ReadHolding,
+            start: 0,
+            count: 1,
+        },
+    }];
+    let mut t = 0u64;
+    let mut command_at = None;
+    for (k, (gap, off)) in case.gaps_ms.iter().zip(case.tx_offsets.iter()).enumerate() {
+        if k == case.command_after {
+            command_at = Some(t);
+            ops.push(if case.disable_instead { COp::Disable(0) } else { COp::Shutdown(0) });
+        }
+        ops.push(COp::Advance(*gap));
+        t += *gap as u64;
+        ops.push(COp::PeerBytes(mbap_frame(*off, 1, &[3, 2, 0x12, 0x34])));
+    }
+    if command_at.is_none() {
+        command_at = Some(t);
+        ops.push(if case.disable_instead { COp::Disable(0) } else { COp::Shutdown(0) });
+    }
+    ops.push(COp::Advance(case.timeout_ms + 50));
+    let run = run_client(&CliCase {
+        cfg: CliConfig {
+            framing: Fr::Mbap,
+            decode: case.decode,
+            max_timeouts: None,
+            queue: 16,
+            retry_ms: 100_000_000,
+        },
+        conns: vec![ConnPlan {
+            peer: PeerPlan::default(),
+            fail_write_at: None,
+            write_stall: None,
+            unsolicited: vec![],
+        }],
+        ops,
+        select_seed: case.select_seed,
+        pre_enable: true,
+    });
+    let mut ok = CaseOk::new();
+    let total: u64 = case.gaps_ms.iter().map(|g| *g as u64).sum();
+    let deadline = case.timeout_ms as u64;
+    let command_at = command_at.unwrap();
+    // the request is over at its deadline, whatever the peer keeps sending
+    let c = run.ledger.completions.iter().find(|c| c.id == 0);
+    match c {
+        Some(c) => {
+            let at = c.at.as_millis() as u64;
+            let limit = deadline.max(command_at) + 1;
+            if at > limit {
+                return Err(format!(
+                    "request with a {} ms timeout completed at {} ms ({:?}) while the peer kept sending well-formed frames with other transaction ids every {:?} ms",
+                    case.timeout_ms,
+                    at,
+                    c.res,
+                    &case.gaps_ms[..case.gaps_ms.len().min(6)]
+                ));
+            }
+        }
+        None => return Err("the request never completed".to_string()),
+    }
+    // the command takes effect when the transaction is over
+    let want = if case.disable_instead { "Disabled" } else { "Shutdown" };
+    let effect = run.events.iter().find_map(|(at, e)| match e {
+        LoopEvent::SessionEnd(_, why) if why.contains(want) => Some(at.as_millis() as u64),
+        LoopEvent::TaskEnd if !case.disable_instead => Some(at.as_millis() as u64),
+        _ => None,
+    });
+    let limit = deadline.max(command_at) + 2;
+    match effect {
+        Some(at) if at <= limit => {}
+        other => {
+            return Err(format!(
+                "{} requested at {} ms while a request with a {} ms timeout was outstanding and the peer kept sending frames with other transaction ids (for {} ms in all): it took effect at {:?} ms, later than {} ms",
+                if case.disable_instead { "disable" } else { "shutdown" },
+                command_at,
+                case.timeout_ms,
+                total,
+                other,
+                limit
+            ))
+        }
+    }
+    if total > 2 * deadline {
+        ok.label("chatter_outlasts_timeout_twice");
+    }
+    if command_at < deadline {
+        ok.label("command_before_deadline");
+    }
+    ok.nontrivial = total > 2 * deadline && command_at < total;
+    Ok(ok)
 }
